@@ -1346,8 +1346,28 @@ def _dev_grid(ctx, rng):
         all_ops.append((op, expect))
         if expect:
             valid_ops.append(op)
+    # the same gate with and without the tag that decides its gate family (virtual vs physical Z, FSim via model): a circuit
+    # holding both is accepted exactly when both are, whatever their order
+    by_label = {c_[0]: c_ for c_ in cands}
+    pair_circuits = []
+    for la, lb in (("Z**t", "Z**t[PhysicalZTag]"), ("FSim(t,0.3)[FSimViaModelTag]", "FSim(t,0.3)")):
+        if rng.random() < 0.5:
+            continue
+        arity = by_label[la][1]
+        if arity == 2:
+            if not pair_set:
+                continue
+            qs2 = sorted(sorted(pair_set, key=lambda f: sorted(f))[int(rng.integers(len(pair_set)))])
+        else:
+            qs2 = [qubits[int(rng.integers(len(qubits)))]]
+        pr_ = []
+        for lab in (la, lb):
+            _, _, mk_, admits_, _ = by_label[lab]
+            pr_.append((mk_(qs2), bool(admits_ & name_set)))
+        for order_ in (pr_, pr_[::-1]):
+            pair_circuits.append(([o for o, _ in order_], all(e for _, e in order_)))
     # circuits: accepted exactly when every operation is
-    for ops_, expect in ((valid_ops, True), ([o for o, _ in all_ops], all(e for _, e in all_ops))):
+    for ops_, expect in [(valid_ops, True), ([o for o, _ in all_ops], all(e for _, e in all_ops))] + pair_circuits:
         if not ops_:
             continue
         circ = cirq.Circuit()
